@@ -2,7 +2,8 @@
 (* Bounded instance for C08 (bitmaps) and C09 (tilesets). *)
 EXTENDS Tileset, Rand
 CONSTANTS MaxWidth, Seed, NRand
-VARIABLES done
+VARIABLES fam, par
+vars == <<fam, par>>
 Row(w, bc, seed) == [i \in 1..Pitch(w, bc) |-> ((seed * 37 + i * 11) % 255) + 1]        \* non-zero everywhere, padding included
 Pal(np, seed) == [i \in 1..np |-> <<(i + seed) % 256, (2 * i) % 256, (510 - i) % 256, seed % 256>>]
 B(w, h, bc, np, seed) == [w |-> w, h |-> h, bc |-> bc, palette |-> Pal(np, seed), rows |-> [r \in 1..Abs(h) |-> Row(w, bc, r + seed)]]
@@ -33,21 +34,43 @@ RUsed(r, b) == IF Len(b.palette) = MaxPalette(b.bc) /\ Below(RS(r), 40, 0, 2) = 
 RTileset(r) == LET h == 32 * Below(RS(r), 50, 0, 4) * (IF Below(RS(r), 51, 0, 2) = 0 THEN 1 ELSE -1) IN
   [w |-> 32, h |-> h, bc |-> 8, palette |-> [i \in 1..256 |-> <<Below(RS(r), 52, i, 256), Below(RS(r), 53, i, 256), Below(RS(r), 54, i, 256), Below(RS(r), 55, i, 256)>>],
    rows |-> [y \in 1..Abs(h) |-> [x \in 1..32 |-> Below(RS(r), 56 + (y % 7), x + y, 256)]]]
-Init == done = FALSE
-Next == /\ ~done /\ done' = TRUE
-        /\ \A bc \in Depths : \A w \in 0..MaxWidth : \A h \in {-2, -1, 0, 1, 3} :
-             /\ Emit(<<"full", bc, w, h>>, << BmpRT(B(w, h, bc, MaxPalette(bc), w + bc), 0), Factory(w, h, bc) >>)
-             /\ (w % 7 = 1 => \A np \in {1, MaxPalette(bc) - 1} : Emit(<<"partial", bc, w, h, np>>, << BmpRT(B(w, h, bc, np, w), np) >>))
-        /\ \A bc \in Depths : \A w \in {0, 1, 5, 9, 33} : \A h \in {-2, 0, 1, 3} : \A np \in {0, 1, MaxPalette(bc)} :
-             Emit(<<"factory2", bc, w, h, np>>, << Factory2(B(w, h, bc, np, w + np)) >>)
-        /\ \A r \in 1..NRand : LET b == RBmp(r) IN
-             /\ Assert(Valid(b), "random bitmap is a valid value")
-             /\ (Len(b.palette) > 0 => Emit(<<"rand", Seed, r>>, << BmpRT(b, RUsed(r, b)), Factory2(b) >>))
-        /\ \A r \in 1..(NRand \div 10) : LET p == RTileset(r) IN
-             Emit(<<"ts-rand", Seed, r>>, << [op |-> "tileset", bmp |-> Encode(p), custom |-> EncodeCustom(p), top |-> Encode(TopDown(p))] >>)
-        /\ \A h \in {0, 32, -32, 64} : \A seed \in {0, 5} : Emit(<<"ts", h, seed>>, << TsCase(h, seed) >>)
-        /\ Emit(<<"tsbad">>, << TsBad(32, 32, 4), TsBad(31, 32, 8), TsBad(33, 32, 8), TsBad(32, 33, 8), TsBad(32, -31, 8) >>)
-        /\ \A b1 \in {80, 81}, b2 \in {66, 67}, b3 \in {77, 78}, b4 \in {80, 81} : \A pos \in {0, 3} : Emit(<<"det", b1, b2, b3, b4, pos>>, << Detect(<<b1, b2, b3, b4>>, pos) >>)
-        /\ Emit(<<"detbm">>, << Detect(<<66, 77, 1, 2>>, 0) >>)
-Spec == Init /\ [][Next]_done
+\* ---- one TLC state per case: (family, parameters).  The laws of the bitmap description are INVARIANTs over the state's bitmap value;
+\*      Export (always true) prints the state's scenario. ---------------------------------------------------------------------------------
+Init == \/ fam = "full" /\ par \in {<<bc, w, h>> : bc \in Depths, w \in 0..MaxWidth, h \in {-2, -1, 0, 1, 3}}
+        \/ fam = "partial" /\ par \in {<<bc, w, h, k>> : bc \in Depths, w \in {x \in 0..MaxWidth : x % 7 = 1}, h \in {-2, -1, 0, 1, 3}, k \in {1, 2}}
+        \/ fam = "factory2" /\ par \in {<<bc, w, h, k>> : bc \in Depths, w \in {0, 1, 5, 9, 33}, h \in {-2, 0, 1, 3}, k \in {0, 1, 2}}
+        \/ fam = "rand" /\ par \in {<<r>> : r \in 1..NRand}
+        \/ fam = "ts-rand" /\ par \in {<<r>> : r \in 1..(NRand \div 10)}
+        \/ fam = "ts" /\ par \in {<<h, seed>> : h \in {0, 32, -32, 64}, seed \in {0, 5}}
+        \/ fam = "tsbad" /\ par = <<>>
+        \/ fam = "det" /\ par \in {<<b1, b2, b3, b4, pos>> : b1 \in {80, 81}, b2 \in {66, 67}, b3 \in {77, 78}, b4 \in {80, 81}, pos \in {0, 3}} \cup {<<66, 77, 1, 2, 0>>}
+Next == UNCHANGED vars
+Spec == Init /\ [][Next]_vars
+PartialCount(bc, k) == IF k = 1 THEN 1 ELSE MaxPalette(bc) - 1
+Factory2Count(bc, k) == IF k = 0 THEN 0 ELSE IF k = 1 THEN 1 ELSE MaxPalette(bc)
+\* the bitmap value of the state (families without one use an empty 8-bit bitmap)
+Value == CASE fam = "full" -> B(par[2], par[3], par[1], MaxPalette(par[1]), par[2] + par[1])
+           [] fam = "partial" -> B(par[2], par[3], par[1], PartialCount(par[1], par[4]), par[2])
+           [] fam = "factory2" -> B(par[2], par[3], par[1], Factory2Count(par[1], par[4]), par[2] + Factory2Count(par[1], par[4]))
+           [] fam = "rand" -> RBmp(par[1])
+           [] fam = "ts-rand" -> RTileset(par[1])
+           [] fam = "ts" -> TS(par[1], par[2])
+           [] OTHER -> B(0, 0, 8, 256, 0)
+\* model-level laws
+ValueIsValid == Valid(Value)
+FlipTwiceIsIdentity == Flip(Flip(Value)) = Value
+FlipReversesRows == LET f == Flip(Value) IN f.h = -Value.h /\ \A i \in 1..Len(f.rows) : f.rows[i] = Value.rows[Len(f.rows) + 1 - i]
+\* what the writer emits is again a valid image of the same geometry with zero padding and a full palette
+CanonIsCanonical == LET c == Canon(Value) IN Valid(c) /\ Canon(c) = c /\ Len(c.palette) = MaxPalette(c.bc) /\ c.w = Value.w /\ c.h = Value.h
+EncodedLength == Len(Encode(Value)) = 54 + 4 * MaxPalette(Value.bc) + Pitch(Value.w, Value.bc) * Abs(Value.h)
+TilesetLaws == fam \in {"ts", "ts-rand"} => IsTileset(Value) /\ Len(EncodeCustom(Value)) = 1096 + 32 * Abs(Value.h) /\ TopDown(Value).h <= 0
+Export ==
+  CASE fam = "full" -> Emit(<<"full", par>>, << BmpRT(Value, 0), Factory(par[2], par[3], par[1]) >>)
+    [] fam = "partial" -> Emit(<<"partial", par>>, << BmpRT(Value, Len(Value.palette)) >>)
+    [] fam = "factory2" -> Emit(<<"factory2", par>>, << Factory2(Value) >>)
+    [] fam = "rand" -> (Len(Value.palette) > 0 => Emit(<<"rand", Seed, par>>, << BmpRT(Value, RUsed(par[1], Value)), Factory2(Value) >>))
+    [] fam = "ts-rand" -> Emit(<<"ts-rand", Seed, par>>, << [op |-> "tileset", bmp |-> Encode(Value), custom |-> EncodeCustom(Value), top |-> Encode(TopDown(Value))] >>)
+    [] fam = "ts" -> Emit(<<"ts", par>>, << TsCase(par[1], par[2]) >>)
+    [] fam = "tsbad" -> Emit(<<"tsbad">>, << TsBad(32, 32, 4), TsBad(31, 32, 8), TsBad(33, 32, 8), TsBad(32, 33, 8), TsBad(32, -31, 8) >>)
+    [] OTHER -> Emit(<<"det", par>>, << Detect(<<par[1], par[2], par[3], par[4]>>, par[5]) >>)
 ====
